@@ -75,14 +75,19 @@ class Terms:
     # ------------------------------------------------------------------
     def of(self, code: str):
         tree = parse_expr(code)
+        # every name some assignment expression of this code binds is a local of the generated code, whatever
+        # it is called (pith variables, validator temporaries): reads resolve through the environment
+        self.local_names = {n.target.id for n in ast.walk(tree) if isinstance(n, ast.NamedExpr) and isinstance(n.target, ast.Name)}
         env = {self.root: ('root',)}
         env.update(self.extra_bound)
         t, self.final_env = self.ev(tree.body, env)
         return t
 
     # ------------------------------------------------------------------
+    local_names: frozenset = frozenset()
+
     def is_pith(self, name: str) -> bool:
-        return name.startswith(self.prefix)
+        return name.startswith(self.prefix) or name in self.local_names
 
     @staticmethod
     def merge(a: dict | None, b: dict | None) -> dict | None:
@@ -176,8 +181,8 @@ class Terms:
         t, env = self.ev(e.value, env)
         if not isinstance(e.target, ast.Name):
             raise TermError('assignment expression to a non-name')
-        if not self.is_pith(e.target.id):
-            self.problems.append(f'assignment expression targets non-pith name {e.target.id}')
+        if not e.target.id.startswith('__beartype_'):
+            self.problems.append(f'assignment expression targets the unreserved name {e.target.id}')
         if e.target.id == self.root:
             self.problems.append(f'assignment expression overwrites the root pith {self.root}')
         self.stores.append(e.target.id)
